@@ -448,7 +448,7 @@ def run(res):
                             "zero-deadline", "past-deadline", "deadline-nsec-at-boundary"]}
     cases = load_corpus()
     ncorpus = len(cases)
-    ngen = 150 if res.tier == "quick" else 2500
+    ngen = 400 if res.tier == "quick" else 5000
     for i in range(ngen):
         cases.append(gen_case(rng, i, kinds))
     nwall = 2 if res.tier == "quick" else 6
@@ -480,6 +480,8 @@ def run(res):
                     first_diff = (ops, w, diffs)
             else:
                 validated += 1
+        if first_bad:
+            break       # a failing input is in hand (and a hanging implementation would cost 30 s per case)
     res.add_cases(len(cases), nontriv, [cases[ncorpus][:6] if len(cases) > ncorpus else cases[0][:6]],
                   rule="op sequences for the scripted-clock harness (timespec add/gt, nanosleep/usleep/sleep with 0-3 runnable background threads, timedlock with a scripted holder, timedjoin with a target finishing after k yields, progress-driven-clock sleeps, real-clock sanity runs), each run with 1 and 2 workers; non-trivial = has a sleep that waits through >= 1 early reading and a timed operation whose first attempt fails; distinct by hash of the op list")
     res.cov["traces_validated_against_impl"] += validated
@@ -497,7 +499,11 @@ def run(res):
                 return bool(judge_case(exe, sub, w)[2])
             except RuntimeError:
                 return False
-        small = common.ddmin(ops, fails, budget=80)
+        i0 = bad[0][0]
+        if fails([ops[i0]]):        # operations are independent: the flagged one alone normally suffices
+            small = [ops[i0]]
+        else:
+            small = common.ddmin(ops, fails, budget=24)
         b2 = judge_case(exe, small, w)[2] or bad
         p = common.write_replay(res.pid, "failing.ops", "# MYTH_NUM_WORKERS=%d\n" % w + "\n".join(small) + "\n")
         res.violations.append((p, True, b2[0][1]))
